@@ -152,6 +152,16 @@ def discharge(ob: Obligation, timeout_ms=10000, use_cvc5=True, hook=None):
     return dict(verdict='undecided', backend='z3+cvc5' if use_cvc5 else 'z3', ms=ms, reason=f'solver {r}: {s.reason_unknown()}')
 
 
+_OBS, _OBS_ARGS = [], (10000, None)
+
+
+def _discharge_idx(i):
+    try:
+        return discharge(_OBS[i], _OBS_ARGS[0], hook=_OBS_ARGS[1])
+    except Exception as e:      # a crash in a child must not look like a verdict
+        return dict(verdict='undecided', backend='z3', ms=0.0, reason=f'discharge crashed: {e!r}')
+
+
 def verify_target(repo_root: str, relpath: str, qualname: str, contract: dict, registry: dict,
                   records: dict, timeout_ms=10000, consts=None):
     """verify one function; returns a plain-data report (picklable)."""
@@ -208,6 +218,7 @@ def verify_target(repo_root: str, relpath: str, qualname: str, contract: dict, r
         rep['stmts_modelled'] = len(eng.stmts_modelled & {n.lineno for n in body_stmts})
         rep['paths'] = eng.paths_done
         rep['assumed_used'] = sorted(assumed_used)
+        rep['lenient_skips'] = [dict(lineno=l, why=w) for l, w in getattr(eng, 'lenient_skips', [])]
         rep['callee_contracts_used'] = sorted(callee_used)
         rep['unsupported'] = [dict(lineno=l, why=w) for l, w in eng.unsupported]
         # canary: the entry state must be satisfiable and `False` must be refutable there
@@ -215,11 +226,22 @@ def verify_target(repo_root: str, relpath: str, qualname: str, contract: dict, r
         r = discharge(can, 5000, use_cvc5=False)
         rep['canary'] = 'ok' if r['verdict'] == 'refuted' else f'FAILED ({r["verdict"]})'
         seen = {}
+        names = []
         for ob in obs:
             k = seen.get(ob.name, 0)
             seen[ob.name] = k + 1
-            name = ob.name if k == 0 else f'{ob.name}#p{k}'
-            r = discharge(ob, timeout_ms, hook=contract.get('model_hook'))
+            names.append(ob.name if k == 0 else f'{ob.name}#p{k}')
+        global _OBS, _OBS_ARGS
+        _OBS, _OBS_ARGS = obs, (timeout_ms, contract.get('model_hook'))
+        inner = int(os.environ.get('VERIF_INNER_JOBS', '6'))
+        if len(obs) > 150 and inner > 1:
+            # many obligations of one function: discharge in forked children (they inherit the z3 terms; results are plain data)
+            import multiprocessing as mp
+            with mp.get_context('fork').Pool(inner) as pool:
+                results = pool.map(_discharge_idx, range(len(obs)), chunksize=8)
+        else:
+            results = [_discharge_idx(i) for i in range(len(obs))]
+        for ob, name, r in zip(obs, names, results):
             r.update(name=name, kind=ob.kind, lineno=ob.lineno, note=ob.note)
             rep['obligations'].append(r)
     except SpecError as e:
